@@ -50,6 +50,7 @@ template <class BOX, bool FLOATING> struct BoxTR {
   static int ntwins() { return 7; }
   static D twin(const D& p, int how, std::string& desc) { return shape_twin<D>(p, how, desc); }
   static int ppl_cert_compare(int, const D&, const D&) { return 99; }
+  static int ppl_cert_compare_certs(int, const D&, const D&) { return 99; }
   static std::vector<WOp<D> > ops(int) {
     std::vector<WOp<D> > v;
     std::vector<Q> dflt; for (int k = -2; k <= 2; ++k) dflt.push_back(Q(k));
